@@ -65,6 +65,8 @@ def generate(reg, pid, only=None, extra_requires=None):
             ob.contract = c
             if c.timeout:
                 ob.timeout = c.timeout
+            if getattr(c, 'solver_order', None):
+                ob.solver_order = c.solver_order
         per_func[c.name] = len(eng.obligations) - n0
     if only is None:
         for lem in reg.lemmas:
